@@ -163,6 +163,21 @@ def run_case(case, repo):
         shutil.rmtree(d, ignore_errors=True)
 
 
+def run_for_property(prop, repo, jobs=8):
+    sel = [c for c in CASES if prop in c[1]]
+    env_backup = os.environ.get("PDXSA_NO_SELFTEST")
+    os.environ["PDXSA_NO_SELFTEST"] = "1"
+    try:
+        with ThreadPoolExecutor(max_workers=jobs) as ex:
+            res = list(ex.map(lambda c: run_case((c[0], [prop], c[2], c[3], c[4], c[5]), repo), sel))
+    finally:
+        if env_backup is None:
+            os.environ.pop("PDXSA_NO_SELFTEST", None)
+    return {"cases": len(res), "mutants_reported": sum(1 for r in res if r[3] == "reported"), "mutants": sum(1 for r in res if r[2] == "violation"),
+            "benign_silent": sum(1 for r in res if r[3] == "silent"), "benign": sum(1 for r in res if r[2] == "pass"),
+            "not_as_expected": [f"{r[0]}:{r[3]}" for r in res if r[3] not in ("reported", "silent")]}
+
+
 def main(args):
     repo = args.repo
     sel = [c for c in CASES if not args.props or set(args.props.split(",")) & set(c[1])]
